@@ -28,8 +28,14 @@ def transports(pcap):
         raw = diff.frame_is_raw(r[4])
         for depth, d in diff.ip_datagrams(r[4], raw):
             tot, ident, frag, ttl, proto, cs, src, dst = struct.unpack(">HHHBBHII", d[2:20])
-            if frag & 0x3fff or tot != len(d):
+            if tot != len(d):
                 continue
+            if frag & 0x3fff:
+                # a flow datagram given an explicit frag_off is still a whole UDP datagram (header + payload) under a
+                # non-zero offset field: recognised by its own length field; slices of fragmentation contexts are not
+                l4 = d[20:]
+                if not (proto == 17 and len(l4) >= 8 and struct.unpack(">H", l4[4:6])[0] == len(l4)):
+                    continue
             if proto in (6, 17, 1):
                 out.append((i, depth, proto, src, dst, d[20:]))
     return ok, out
@@ -120,7 +126,23 @@ def run(ctx):
             else:
                 queries.append("icmp " + l4.hex())
                 owners.append((c, rec, depth, "icmp-csum", l4))
-        # checksumming enabled => checksum present: flow datagrams of the special cases
+        # checksumming enabled => checksum present: every flow datagram whose call did not say csum: false
+        npks = [m.get("npk", 0) for m in (c.meta or [])]
+        if c.meta and c.stmts and len(c.meta) == len(c.stmts) and sum(npks) == len(common.pcap_records(c.impl.pcap)[1]):
+            owner, k = {}, 0
+            for st, n in zip(c.stmts, npks):
+                for _ in range(n):
+                    owner[k] = st
+                    k += 1
+            for (rec, depth, proto, src, dst, l4) in ti:
+                st = owner.get(rec)
+                call = st[-1] if st is not None and st[0] == "expr" and isinstance(st[-1], gen.Call) else None
+                if depth == 0 and proto == 17 and call is not None and call.comps[-1] in ("client_dgram", "server_dgram") \
+                        and not any(k == "csum" for k, _ in call.args) and l4[6:8] == b"\x00\x00":
+                    ctx.fail("udp-csum-missing", "record %d: UDP flow datagram built with checksumming enabled carries checksum 0"
+                             % rec, diff.replay_of(c))
+                    break
+        # ... and the flow datagrams of the special cases
         if c.gen.get("kind") == "udp-zero-fold":
             for (rec, depth, proto, src, dst, l4) in ti:
                 if proto == 17 and l4[6:8] == b"\x00\x00":
